@@ -51,6 +51,7 @@ func main() {
 		nomodel := fs.Bool("nomodel", false, "skip the Lean driver (oracles only)")
 		fs.Parse(os.Args[3:])
 		noModel = *nomodel
+		driverPath = *driver
 		if s := os.Getenv("VERIF_SEED"); s != "" && !isFlagSet(fs, "seed") {
 			if v, err := strconv.ParseUint(s, 10, 64); err == nil {
 				*seed = v
